@@ -1,6 +1,7 @@
 package main
 
 import (
+	"time"
 	"context"
 	"fmt"
 	"os"
@@ -85,7 +86,11 @@ func cmdLive(args []string) int {
 
 	// (b) twins: the same prefix on two instances, then the batch on one and the singles on the other
 	twinCount := 0
+	twinStuck := false
 	for _, n := range sizes {
+		if twinStuck {
+			break
+		}
 		if n > len(fx.Accounts) {
 			continue
 		}
@@ -147,7 +152,27 @@ func cmdLive(args []string) int {
 			}
 			verifSetHook(a)
 			old := runtime.GOMAXPROCS(p)
-			rec, err := run.execStep(a, 1000+n, p, batch)
+			type stepRes struct {
+				rec *StepRec
+				err error
+			}
+			ch := make(chan stepRes, 1)
+			go func() {
+				rec, err := run.execStep(a, 1000+n, p, batch)
+				ch <- stepRes{rec, err}
+			}()
+			var rec *StepRec
+			select {
+			case r := <-ch:
+				rec, err = r.rec, r.err
+			case <-time.After(120 * time.Second):
+				runtime.GOMAXPROCS(old)
+				monFail = append(monFail, fmt.Sprintf("batch of %d valid attestations over distinct keys (GOMAXPROCS %d) was never answered (120 s)", n, p))
+				twinStuck = true
+			}
+			if twinStuck {
+				break
+			}
 			runtime.GOMAXPROCS(old)
 			if err != nil {
 				fmt.Fprintln(os.Stderr, "exec:", err)
